@@ -267,7 +267,9 @@ class Gen:
         hp = [h for h in hops(lon, lat) if h not in (NA, 0)]
         rmax = r.choice([[], [], [0, 1], [100000000, 1]])
         if hp and r.random() < 0.6:
-            rmax = [max(0, r.choice(hp) + r.choice([-50, 50, -5000, 5000])), 1]
+            # (0 / +1: the whole metres just below and just above the hop -- on hops of thousands of kilometres that is
+            # a relative difference of 1e-7, lost by anything that carries the distance in single precision)
+            rmax = [max(0, r.choice(hp) + r.choice([-50, 50, -5000, 5000, 0, 1, 0, 1])), 1]
         c = mk("loc", lon=lon, lat=lat, p={"bbox": bbox, "rmax": rmax, "shapes": "same"})
         if n >= 2 and r.random() < 0.04:
             c["p"]["shapes"] = "differ"      # same number of elements, different shapes: rejected
@@ -330,6 +332,16 @@ class Gen:
                 s = last + r.choice([1, 3600])
             t.append(s)
             last = s
+        if n >= 2 and r.random() < 0.2:
+            # observations that are not in time order (newest first, shuffled, a stamp repeated): the test is point-wise
+            mode = r.choice(["rev", "shuf", "dup"])
+            if mode == "rev":
+                t.reverse()
+            elif mode == "shuf":
+                r.shuffle(t)
+            else:
+                i = r.randrange(1, n)
+                t[i] = t[i - 1]
         zmode = r.choice(["none", "present", "present", "some", "allmissing"])
         if zmode == "none":
             z = []
